@@ -31,6 +31,7 @@ class World:
 
         self.P = P
         self.ids: dict[str, int] = {}
+        self.oids: dict[int, int] = {}
         self.texts: list[str] = []
         self.codes = list(codes)
         self.dicts: dict[int, dict] = {}      # text id of json.dumps(d) -> d
@@ -102,6 +103,17 @@ class World:
                 pass
         self.etext = {n: self.tid(f"EPSG:{n}") for n in list(codes) + [999999, 1, 0, -1]}
         self.frozen = len(self.texts)
+
+    def oid(self, i: int) -> int:
+        """object ids (CPython addresses) relabelled injectively in order of first observation: the models only
+        compare ids for equality, and small literals keep the generated Coq terms small"""
+        if i < 0:
+            return i
+        j = self.oids.get(i)
+        if j is None:
+            j = len(self.oids) + 1
+            self.oids[i] = j
+        return j
 
     def tid(self, s: str) -> int:
         i = self.ids.get(s)
@@ -208,7 +220,6 @@ class Runner:
     def reset(self):
         self.M._crs_cache.clear()
         self.M._make_crs_transform.cache.clear()
-        gc.collect()
 
     def run(self, ops, check_transformers=True):
         """Execute `ops`; returns (coq case text, vars, problems).  `problems` are
@@ -233,10 +244,10 @@ class Runner:
                     kk = f"(KStr {cz(w.known(k))})"
                 else:
                     note(k)
-                    kk = f"(KObj {cz(id(k))} {cz(w.known(k.srs))})"
-                items.append(f"({kk}, ({cz(id(o))}, {cz(w.known(o.srs))}, {cz(w.known(s))}, {cz(int(e))}))")
-            tk = [f"({cz(a)}, {cz(b)}, {cbool(xy)})" for (a, b, xy) in M._make_crs_transform.cache.keys()]
-            live = sorted(i for i, r in reg.items() if r() is not None)
+                    kk = f"(KObj {cz(w.oid(id(k)))} {cz(w.known(k.srs))})"
+                items.append(f"({kk}, ({cz(w.oid(id(o)))}, {cz(w.known(o.srs))}, {cz(w.known(s))}, {cz(int(e))}))")
+            tk = [f"({cz(w.oid(a))}, {cz(w.oid(b))}, {cbool(xy)})" for (a, b, xy) in M._make_crs_transform.cache.keys()]
+            live = sorted(w.oid(i) for i, r in reg.items() if r() is not None)
             return f"(mkDigest [{'; '.join(items)}] [{'; '.join(tk)}] [{'; '.join(cz(i) for i in live)}])"
 
         def fresh_dummy():
@@ -254,7 +265,7 @@ class Runner:
                     return fresh_dummy(), "ObsErr"
                 note(p)
                 pys.append(p)
-                return id(p), f"(ObsId {cz(id(p))})"
+                return w.oid(id(p)), f"(ObsId {cz(w.oid(id(p)))})"
             if k == "crs":
                 s = op[1]
                 n0 = len(M._crs_cache)
@@ -269,7 +280,7 @@ class Runner:
                     elif s[0] == "pynew":
                         p = w.P.from_user_input(w.texts[s[1]])
                         note(p)
-                        nid = id(p)
+                        nid = w.oid(id(p))
                         v = CRS(p)
                         del p
                     elif s[0] == "py":
@@ -290,9 +301,9 @@ class Runner:
                     return (nid if nid is not None else fresh_dummy()), "ObsErr"
                 note(v._crs)
                 if nid is None:
-                    nid = id(v._crs) if len(M._crs_cache) > n0 or s[0] != "dict" else fresh_dummy()
+                    nid = w.oid(id(v._crs)) if len(M._crs_cache) > n0 or s[0] != "dict" else fresh_dummy()
                 vars_.append(v)
-                return nid, (f"(ObsCrs {cz(id(v._crs))} {cz(w.known(v._crs.srs))} {cz(w.known(v._str))} {coq_oz(v._epsg)})")
+                return nid, (f"(ObsCrs {cz(w.oid(id(v._crs)))} {cz(w.known(v._crs.srs))} {cz(w.known(v._str))} {coq_oz(v._epsg)})")
             if k in ("toepsg", "dropcrs"):
                 if op[1] >= len(vars_) or vars_[op[1]] is None:
                     return 0, "ObsErr"
@@ -323,15 +334,22 @@ class Runner:
             raise ValueError(op)
 
         steps = []
+        prev = None
+        self.strs = []
         for op in ops:
+            n0 = len(vars_)
             nid, obs = do(op)
-            steps.append(f"({coq_op(op, nid)}, {obs}, {digest()})")
+            self.strs.append(str(vars_[-1]) if op[0] == "crs" and len(vars_) > n0 else None)
+            d = digest()
+            steps.append(f"({coq_op(op, nid)}, {obs}, {'None' if d == prev else '(Some ' + d + ')'})")
+            prev = d
         return "CHist [" + ";\n  ".join(steps) + "]", vars_, problems
 
     def transformer_differs(self, f, a, b, xy):
         """compare with a transformer built from scratch for exactly this pair"""
         from pyproj import Transformer
-        ref = Transformer.from_crs(self.w.P.from_user_input(a._crs.srs), self.w.P.from_user_input(b._crs.srs), always_xy=xy)
+        w = self.w
+        ref = Transformer.from_crs(w.obj[w.known(a._crs.srs)], w.obj[w.known(b._crs.srs)], always_xy=xy)
         for (x, y) in PTS:
             got = f(x, y)
             want = ref.transform(x, y)
